@@ -22,7 +22,7 @@ ANCHORS = ["MPRenderer.draw_scenario", "MPRenderer.draw_dynamic_obstacle", "MPRe
            "MPRenderer.draw_phantom_obstacle", "MPRenderer.draw_environment_obstacle", "MPRenderer._draw_occupancy",
            "MPRenderer.draw_lanelet_network", "MPRenderer.draw_planning_problem_set", "MPRenderer.render",
            "BaseParam.__setattr__", "MPRenderer.draw_trajectory", "MPRenderer.draw_goal_region"]
-REQUIRED = ["totality.draw", "totality.render", "totality.rasterised", "types.icon", "types.shape", "flag.traffic_light.show_label", "totality.all-boolean-parameters-sampled", "renderer.plot-limits", "renderer.focus-obstacle", "renderer.lanelets-in-view-required", "exactness.checked", "exactness.dynamic-trajectory",
+REQUIRED = ["totality.draw", "totality.render", "totality.rasterised", "types.icon", "types.shape", "exactness.static-with-later-initial-time-step", "flag.traffic_light.show_label", "totality.all-boolean-parameters-sampled", "renderer.plot-limits", "renderer.focus-obstacle", "renderer.lanelets-in-view-required", "exactness.checked", "exactness.dynamic-trajectory",
             "exactness.dynamic-set", "exactness.static", "exactness.phantom", "exactness.environment",
             "exactness.window-before-horizon", "exactness.window-after-horizon", "exactness.no-occupancy-at-begin",
             "lanelets.all", "lanelets.subset", "lanelets.empty-list", "propagation.root", "propagation.nested",
@@ -289,7 +289,12 @@ def run(ctx):
                     pred = SetBasedPrediction(t0 + 1, occs)
                 ob = DynamicObstacle(oid, ObstacleType.CAR, shape, init, pred)
             elif kind == "static":
-                ob = StaticObstacle(oid, ObstacleType.PARKED_VEHICLE, gen_shape(G, rng), gen_state(G, rng, "InitialState", 0, oid))
+                # the initial state of a static obstacle may carry any time step: its occupancy is the same at ALL times
+                ts0 = rng.choice([0, 0, 4, 30, 250])
+                if ts0:
+                    ctx.feature("exactness.static-with-later-initial-time-step")
+                ob = StaticObstacle(oid, ObstacleType.PARKED_VEHICLE, gen_shape(G, rng),
+                                    gen_state(G, rng, "InitialState", ts0, oid))
             elif kind == "phantom":
                 ob = PhantomObstacle(oid, SetBasedPrediction(1, [Occupancy(1 + k, G.shape()) for k in range(rng.randint(1, 3))]))
             else:
